@@ -40,6 +40,7 @@ type ExecCtx struct {
 	pendingLabel string
 	curPos   token.Pos
 	loopBinds []map[string]Val
+	inlinedFunc bool // body of a named function inlined at a call site
 }
 
 var NilTerm = &Term{Op: "sym", Name: "$untyped_nil", Sort: "Nil"}
@@ -110,7 +111,7 @@ func (c *ExecCtx) convert(st *State, v Val, to types.Type) *Term {
 		return App(fn, SInt, v.T)
 	}
 	// sort mismatch we cannot explain: unknown value of the right sort
-	c.u.unsupportedf(token.NoPos, "convert %s (%s) to %s", v.T.Sort, v.Ty, toSort)
+	c.u.unsupportedf(c.curPos, "convert %s (%s) to %s", v.T.Sort, v.Ty, toSort)
 	return c.u.fresh("conv", toSort)
 }
 
@@ -411,7 +412,7 @@ func (c *ExecCtx) heapFieldWrite(st *State, ref *Term, structT types.Type, i int
 
 // nilCheck emits a #nil obligation when sweeping.
 func (c *ExecCtx) nilCheck(st *State, ref *Term, pos token.Pos, what string) {
-	if !c.u.sweep || ref.Sort != SInt {
+	if !c.sweepOn() || ref.Sort != SInt {
 		return
 	}
 	if ref.Op == "sym" && len(ref.Name) > 6 && ref.Name[:6] == "fnref_" {
@@ -576,8 +577,22 @@ func (c *ExecCtx) strAt(s, i *Term) *Term {
 	return App("sat", SInt, s, i)
 }
 
-func (c *ExecCtx) boundsCheck(st *State, idx, n *Term, pos token.Pos, what string) {
+// sweepOn: zero-annotation safety obligations belong to the unit that owns
+// the code; bodies inlined from other functions are checked in their own unit.
+func (c *ExecCtx) sweepOn() bool {
 	if !c.u.sweep {
+		return false
+	}
+	for x := c; x != nil; x = x.parent {
+		if x.inlinedFunc {
+			return false
+		}
+	}
+	return true
+}
+
+func (c *ExecCtx) boundsCheck(st *State, idx, n *Term, pos token.Pos, what string) {
+	if !c.sweepOn() {
 		return
 	}
 	c.u.oblige(st, "idx", And(Ge(idx, IntLit(0)), Lt(idx, n)), pos, what+" in range")
@@ -614,7 +629,7 @@ func (c *ExecCtx) mapStore(st *State, m Val, k, v *Term, pos token.Pos) {
 	u := c.u
 	mt := unalias(m.Ty).Underlying().(*types.Map)
 	hn, vn, ln, ks, vs := c.mapHeaps(mt)
-	if u.sweep {
+	if c.sweepOn() {
 		u.oblige(st, "mapw", Ne(m.T, IntLit(0)), pos, "write to nil map")
 	}
 	hs := ArraySort(SInt, ArraySort(ks, SBool))
@@ -669,12 +684,12 @@ func (c *ExecCtx) evalSlice(st *State, x *ast.SliceExpr) Val {
 		}
 		capT := slCap(base.T)
 		if mx != nil {
-			if u.sweep {
+			if c.sweepOn() {
 				u.oblige(st, "slice", And(Le(hi, mx), Le(mx, capT)), x.Pos(), "slice max in range")
 			}
 			capT = mx
 		}
-		if u.sweep {
+		if c.sweepOn() {
 			u.oblige(st, "slice", And(Ge(lo, IntLit(0)), Le(lo, hi), Le(hi, capT)), x.Pos(), "slice bounds in range")
 		}
 		arr := c.shiftArr(st, slArr(base.T), lo)
@@ -691,7 +706,7 @@ func (c *ExecCtx) evalSlice(st *State, x *ast.SliceExpr) Val {
 		if hi == nil {
 			hi = n
 		}
-		if u.sweep {
+		if c.sweepOn() {
 			u.oblige(st, "slice", And(Ge(lo, IntLit(0)), Le(lo, hi), Le(hi, n)), x.Pos(), "slice bounds in range")
 		}
 		st2 := types.NewSlice(t.Elem())
@@ -707,7 +722,7 @@ func (c *ExecCtx) evalSlice(st *State, x *ast.SliceExpr) Val {
 			if hi == nil {
 				hi = n
 			}
-			if u.sweep {
+			if c.sweepOn() {
 				u.oblige(st, "slice", And(Ge(lo, IntLit(0)), Le(lo, hi), Le(hi, n)), x.Pos(), "string slice bounds in range")
 			}
 			r := c.strSub(base.T, lo, hi)
@@ -966,13 +981,17 @@ func (c *ExecCtx) evalTypeAssert(st *State, x *ast.TypeAssertExpr, commaOk bool)
 	ok := And(Ne(v.T, IntLit(0)), Eq(App("dyntype", SInt, v.T), c.typeTag(t)))
 	ub := c.unbox(v.T, t)
 	if !commaOk {
-		if u.sweep {
+		if c.sweepOn() {
 			u.oblige(st, "assert", ok, x.Pos(), "type assertion to "+t.String())
 		}
 		st.assumeT(ok)
 		return []Val{{ub, t}}
 	}
 	okS := u.define(st, "taok", ok)
+	// listed assumption: interfaces do not hold typed-nil pointers
+	if _, isPtr := unalias(t).Underlying().(*types.Pointer); isPtr {
+		st.assumeT(Imp(okS, Ne(ub, IntLit(0))))
+	}
 	return []Val{{Ite(okS, ub, u.eng.tm.Zero(t)), t}, {okS, types.Typ[types.Bool]}}
 }
 
@@ -1161,12 +1180,12 @@ func (c *ExecCtx) binop(st *State, op token.Token, l, r Val, rt types.Type, pos 
 		case token.MUL:
 			return Val{Mul(l.T, r.T), rt}
 		case token.QUO:
-			if u.sweep {
+			if c.sweepOn() {
 				u.oblige(st, "div", Ne(r.T, IntLit(0)), pos, "division by zero")
 			}
 			return Val{c.truncDiv(st, l.T, r.T), rt}
 		case token.REM:
-			if u.sweep {
+			if c.sweepOn() {
 				u.oblige(st, "div", Ne(r.T, IntLit(0)), pos, "modulo by zero")
 			}
 			return Val{c.truncMod(st, l.T, r.T), rt}
